@@ -59,10 +59,20 @@ def fmt_dur(ns):
     return "%d.%06dms" % (ns // 1000000, ns % 1000000)
 
 
+# names of utils/fstack.c's internal fixup table (fixup_syms) whose special handling does not touch a single,
+# well nested task (exec* and longjmp would): a function may carry one of them instead of its ordinary name;
+# the table is trigger-only, the selection must not depend on the name
+FIXUP_ALIAS = {1: "_setjmp", 2: "fork", 3: "vfork", 4: "daemon", 5: "setjmp", 6: "sigsetjmp", 7: "__sigsetjmp"}
+
+
+def name_of(cfg, k):
+    return FIXUP_ALIAS[k] if k in cfg.get("fixup", ()) else NAMES[k]
+
+
 def cli_opts(cfg):
     o = []
     for k, tr in sorted(cfg.get("trig", {}).items()):
-        n = NAMES[k]
+        n = name_of(cfg, k)
         if tr.get("filter") is True:
             o += ["-F", n]
         elif tr.get("filter") is False:
@@ -106,9 +116,9 @@ def cli_opts(cfg):
     if cfg.get("zsize"):
         o += ["-Z", str(cfg["zsize"])]
     for k, z in sorted(cfg.get("ztrig", {}).items()):
-        o += ["-T", "%s@size=%d" % (NAMES[k], z)]
+        o += ["-T", "%s@size=%d" % (name_of(cfg, k), z)]
     for k, act in cfg.get("decor", []):          # presentation-only trigger actions: must not change the selection
-        o += ["-T", "%s@%s" % (NAMES[k], act)]
+        o += ["-T", "%s@%s" % (name_of(cfg, k), act)]
     if not cfg.get("libcall", True):
         o += ["--no-libcall"]
     return o
@@ -162,7 +172,7 @@ def syms_for(cfg):
     # `_start` is in every real symbol table; uftrace graph -D hangs its synthetic depth trigger on it (without it the
     # trigger matches nothing, setup_fstack_filters() gives up and the later -C/-H/-L options are dropped)
     sizes = cfg.get("sizes", {})
-    return [(0x1000 + 0x100 * i, sizes.get(i, 0x80), "P" if i in plt else "T", NAMES[i]) for i in range(NFUN)] + [
+    return [(0x1000 + 0x100 * i, sizes.get(i, 0x80), "P" if i in plt else "T", name_of(cfg, i)) for i in range(NFUN)] + [
         (0x1000 + 0x100 * (NFUN + 2), 0x40, "T", "_start")]
 
 
@@ -186,6 +196,7 @@ def write_dbg(d, cfg):
 
 FN = {n: i for i, n in enumerate(NAMES)}
 FN["<0>"] = NOFN
+FN.update({n: k for k, n in FIXUP_ALIAS.items()})
 
 
 # ---------------------------------------------------------------- output parsers -> observations
@@ -615,6 +626,15 @@ def gen_case(rng, kind, eq=True):
                 tags.append("F-last-child")
             if len(ks) > 2 and any(ks[1:-1]):
                 tags.append("F-middle-child")
+    if rng.random() < 0.4:
+        # some functions carry a name of the internal fixup table (fork, _setjmp, ...): nothing may change
+        cand = [k for k in used if k in FIXUP_ALIAS]
+        if cand:
+            cfg["fixup"] = sorted(rng.sample(cand, rng.randint(1, len(cand))))
+            tags.append("fixup-named")
+            limits = fl or cfg.get("depth") is not None or any(t.get("depth") is not None for t in cfg["trig"].values())
+            if limits and any(not cfg["trig"].get(k) for k in cfg["fixup"]):
+                tags.append("fixup-named:no-user-entry-under-F-or-D")
     return cfg, f, sorted(set(tags))
 
 
@@ -834,6 +854,8 @@ def shared_only(cfg):
         c["depth"] = cfg["depth"]
     if cfg.get("threshold"):
         c["threshold"] = cfg["threshold"]
+    if cfg.get("fixup"):
+        c["fixup"] = cfg["fixup"]
     return c
 
 
@@ -1030,6 +1052,8 @@ def run_commands_m(objdir, d, cfg, script_path):
 
 def gen_mcase(rng, kind):
     cfg, f, tags = gen_case(rng, kind)
+    cfg.pop("fixup", None)          # a call named fork/vfork/daemon hands its display depth on to the other tasks
+    tags = [t for t in tags if not t.startswith("fixup-named")]
     ntask = rng.choice([2, 2, 3])
     fs = [f]
     for i in range(1, ntask):
@@ -1145,6 +1169,7 @@ def gen_tcase(rng, kind):
     cfg.pop("range", None)
     cfg.pop("range_first", None)
     cfg.pop("threshold", None)
+    cfg.pop("fixup", None)
     ntask = rng.choice([2, 3, 3, 4])
     # the forest the options were made for (it starts near 1000) is one of the tasks, at any position
     starts = rng.sample([880, 940, 1060, 1150, 1250], ntask - 1)
@@ -1426,12 +1451,7 @@ def witnesses1():
 
 
 def witnesses2():
-    T = 100
     return [
-        ("threshold-boundary",
-         "a call that runs exactly the threshold: `record -t 100ns` drops it (keeps `>`), `replay -t 100ns` of the "
-         "full recording shows it (drops `<`)",
-         {"trig": {}, "threshold": T}, [C(0, 1000, 2000, [C(1, 1100, 1100 + T), C(2, 1300, 1300 + T + 1)])], "pg"),
         ("filter-below-depth-trigger",
          "-F main -T alpha@depth=1 -F beta: record shows alpha { beta }, replay of the full recording shows beta's "
          "whole subtree (DESIGN section 9 #12)",
@@ -1443,6 +1463,16 @@ def witnesses2():
          {"trig": {0: {"time": 300}, 4: {"filter": True}}, "threshold": 100},
          [C(0, 1000, 3000, [C(4, 1100, 2500, [C(2, 1200, 1403), C(3, 1500, 2000)])])], "pg"),
     ]
+
+
+def corpus2():
+    """fixed defect kept as ordinary cases (/repo 075e798): a call that runs exactly the threshold was dropped by
+    `record -t T` (kept `>`) and shown by `replay -t T` (drops `<`)"""
+    T = 100
+    f = [C(0, 1000, 2000, [C(1, 1100, 1100 + T), C(2, 1300, 1300 + T + 1), C(3, 1500, 1500 + T - 1)])]
+    return [("corpus:threshold-boundary", {"trig": {}, "threshold": T}, f, ["corpus:threshold-boundary"], "pg"),
+            ("corpus:threshold-boundary", {"trig": {}, "threshold": T}, f, ["corpus:threshold-boundary"], "cyg"),
+            ("corpus:threshold-boundary", {"trig": {1: {"time": T + 1}}, "threshold": T}, f, ["corpus:threshold-boundary"], "pg")]
 
 
 def report_witness(ctx, key, what, still, replay_obj):
@@ -1462,7 +1492,19 @@ def corpus1():
             ("corpus:elapsed-range-open-calls", {"trig": {}, "range": (1200, 1450), "range_first": 1000}, f1,
              ["corpus:elapsed-range-open-calls", "range:elapsed"]),
             ("corpus:elapsed-range-stop-only", {"trig": {}, "range": (0, 1650), "range_first": 1000}, f1,
-             ["corpus:elapsed-range-stop-only", "range:elapsed"])]
+             ["corpus:elapsed-range-stop-only", "range:elapsed"]),
+            # functions named like entries of the internal fixup table, no user filter on them: outside the -F scope,
+            # beyond -D, below -N - they are ordinary functions for the selection
+            ("fixup:explicit", {"trig": {3: {"filter": True}}, "fixup": [1, 2, 4]},
+             [C(0, 1000, 2000, [C(2, 1100, 1150), C(1, 1200, 1300, [C(4, 1210, 1220)]), C(3, 1400, 1900, [C(2, 1500, 1600)])])],
+             ["fixup-named", "fixup-named:no-user-entry-under-F-or-D", "fixup-named:explicit"]),
+            ("fixup:explicit", {"trig": {}, "depth": 2, "fixup": [1, 2, 5]},
+             [C(0, 1000, 2000, [C(3, 1100, 1900, [C(1, 1200, 1300, [C(2, 1210, 1290, [C(5, 1220, 1230)])]), C(4, 1400, 1500)])])],
+             ["fixup-named", "fixup-named:no-user-entry-under-F-or-D", "fixup-named:explicit"]),
+            ("fixup:explicit", {"trig": {3: {"filter": False}, 4: {"filter": True}}, "depth": 2, "fixup": [2, 5]},
+             [C(0, 1000, 2000, [C(2, 1050, 1080), C(3, 1100, 1500, [C(2, 1200, 1300)]),
+                                C(4, 1600, 1900, [C(1, 1610, 1800, [C(5, 1620, 1700, [C(2, 1630, 1650)])])])])],
+             ["fixup-named", "fixup-named:no-user-entry-under-F-or-D", "fixup-named:explicit"])]
 
 
 def run(ctx):
@@ -1496,10 +1538,11 @@ def run(ctx):
     w2 = witnesses2()
     for key, what, cfg, f, shape in w2:
         todo.append(("witness:" + key, cfg, f, ["witness:" + key], shape))
+    todo += corpus2()
     n2 = ctx.n(4, 50)
     for kind in KINDS2:
         for i in range(n2 if kind != "plain" else 2):
-            cfg, f, tags = gen_case(rng, kind, eq=(i % 3 == 0))
+            cfg, f, tags = gen_case(rng, kind, eq=(i % 3 != 2))
             todo.append((kind, shared_only(cfg), f, tags, "cyg" if i % 4 == 3 else "pg"))
     rcases = line2(ctx, objdir, todo)
     res2 = evaluate2(ctx, rcases)
